@@ -121,6 +121,9 @@ func genC04Plain(seed uint64, run int, tier string) *Plan {
 				if op.K == "s.with" && op.End == "abort" {
 					op.End = "error"
 				}
+				if r.IntN(5) < 2 {
+					op.Sess = privSess // the session the task keeps across its transactions
+				}
 				for m := 1 + r.IntN(3); m > 0; m-- {
 					switch r.IntN(4) {
 					case 0, 1:
@@ -424,11 +427,29 @@ func c04Check(e *Env, prop string, actors []*actor) {
 			e.probe("uncommitted-by-fault")
 			continue
 		}
+		isTxn := u.Op.K == "s.txn" || u.Op.K == "s.with"
+		if isTxn {
+			// a transaction ends in success, an injected fault, its callback's own error or a key conflict inside it;
+			// anything else (a session that still holds a dead transaction, a lost writer slot) is the engine's doing
+			// (errors of the calls inside the body are not propagated by the workload)
+			if cls != "ok" && cls != "other:"+errCallback.Error() {
+				e.violate(violation(prop, "transaction-failed", classKey(u.Err), fmt.Sprintf("%s failed with %v", opStr(u.Op), u.Err)))
+				return
+			}
+		}
+		// a call that reported success for a change must have committed it: applied for real, it may not change the model
+		acked := u.Err == nil
+		if isTxn {
+			acked = u.TxnOK
+		}
 		okAt := -1
 		var last string
 		for j := u.InvCom; j <= u.RetCom && j < len(snaps); j++ {
 			tmp := snaps[j].Clone()
-			d := c04Apply(tmp, u, false)
+			d := c04Apply(tmp, u, acked)
+			if d == "" && acked && modelDump(tmp) != modelDump(snaps[j]) {
+				d = "the call reported success for a change but no commit was made for it (its writes are nowhere)"
+			}
 			if d == "" {
 				okAt = j
 				break
